@@ -475,9 +475,16 @@ func runC12(o *opts) error {
 		if err != nil {
 			return err
 		}
+		var kjobs []*c12kJob
 		for _, line := range strings.Split(strings.TrimSpace(string(data)), "\n") {
 			f := strings.Fields(line)
 			if len(f) < 6 {
+				continue
+			}
+			if f[0] == "K" {
+				if j := c12kFromLine(f); j != nil {
+					kjobs = append(kjobs, j)
+				}
 				continue
 			}
 			base := ""
@@ -487,6 +494,13 @@ func runC12(o *opts) error {
 			emit(f[1], f[2], string(unhx(f[3])), f[4], strings.Split(f[5], ","), base)
 		}
 		flush()
+		if err := c12kRun(o, kjobs, stats); err != nil {
+			return err
+		}
+		for _, j := range kjobs {
+			cases.line("%s", j.caseLine)
+			impl.line("%s", j.implLine)
+		}
 		return nil
 	}
 
@@ -626,6 +640,23 @@ func runC12(o *opts) error {
 		emit("g", "sym", text, pre, c12PlainAtoms[:k], "")
 	}
 	flush()
+
+	// stream k: keywords / word operators / white space inside atoms and clauses (c12kw.go), on a real store
+	if o.get("nok", "") == "" {
+		bad, err := c12kSelfTest(o)
+		if err != nil {
+			return err
+		}
+		stats["k_atoms_negation_unobservable"] = bad
+		kjobs := c12kGenerate(o, newRng(o.seed^0x4b57), stats)
+		if err := c12kRun(o, kjobs, stats); err != nil {
+			return err
+		}
+		for _, j := range kjobs {
+			cases.line("%s", j.caseLine)
+			impl.line("%s", j.implLine)
+		}
+	}
 	writeJSON(o.out, "stats.json", stats)
 	return nil
 }
